@@ -32,16 +32,22 @@ CLAIMS = {
 }
 GOALS = {'quick': ['deleted with an update in flight', 'deleted while idle',
                    'end called twice', 'engine dropped without end',
-                   'parallel step', 'daughters parallel'],
+                   'parallel step', 'daughters parallel',
+                   'worker->parent pipe of capacity 0'],
          'thorough': ['deleted with an update in flight', 'deleted while idle',
                       'end called twice', 'engine dropped without end',
-                      'parallel step', 'daughters parallel']}
+                      'parallel step', 'daughters parallel',
+                      'worker->parent pipe of capacity 0']}
 STUBS = ['vivarium.core.process.multiprocessing rebound to vsym.mpstub (threads '
          'with strict hand-off, queues as pipes, hang detection)',
          'pure stub processes with deltas indexed by (name, call)']
 ASSUMPTIONS = ['transport contract: ordered delivery, recv on an empty pipe '
                'blocks forever, join returns iff the target returned; messages '
-               'by reference (pickling not modelled); OS reaping outside']
+               'by reference (pickling not modelled); OS reaping outside',
+               'pipe capacity: unbounded in the base jobs, 0 for the '
+               'worker->parent direction in the fullpipe jobs (send blocks '
+               'until received; join on a worker blocked sending = hang): '
+               'the two extremes of "bounded"']
 BOUNDS = {'quick': '2 processes + 1 step, parallel or not (two symbolic flags), '
                    'agent timestep in [1,3], second process self-paced (default calculate_timestep, changes its own timestep from 2 to 1), killer in [1,2], operation in '
                    '{none, delete, divide with parallel daughters, move, generate a parallel process}, stop '
@@ -184,6 +190,15 @@ def jobs(tier):
                     op=op, stop=stop, pd=pd, B=3 if q else 4,
                     budget_s=100 if q else 900, validate=1,
                     crosscheck=0 if q else 10))
+    # the same under a worker->parent pipe of capacity 0 (large results: the
+    # worker's send blocks until the parent receives)
+    for op in (('none', 'delete', 'divide') if q else OPS):
+        for stop in STOPS:
+            for pd in ((True,) if op in ('divide', 'generate') else (None,)):
+                out.append(dict(
+                    name='fullpipe-%s-%s' % (op, stop), op=op, stop=stop,
+                    pd=pd, B=3, rendezvous=True, budget_s=100 if q else 900,
+                    validate=1))
     return out
 
 
@@ -270,6 +285,9 @@ def run_once(ctx, cfg, flags, ivs, tag):
 
 def body(ctx, cfg):
     mpstub.install()
+    mpstub.RENDEZVOUS = bool(cfg.get('rendezvous'))
+    if mpstub.RENDEZVOUS:
+        ctx.goal('worker->parent pipe of capacity 0')
     CTX.clear()
     CTX['ctx'] = ctx
     B = cfg['B']
